@@ -176,6 +176,10 @@ class Model:
         # tables keyed by True/False are the conditional they stand for;
         # locals that only name an attribute chain or a bound method are
         # replaced by what they name
+        # a value a pinned helper now computes first thing from what it is
+        # handed is computed by its callers again
+        self.aliases.hoisted = normalise.hoist_param_prologue(
+            {k: v[2] for k, v in parsed.items()})
         self.aliases.tables = normalise.bool_tables(
             {k: v[2] for k, v in parsed.items()})
         self.aliases.locals_inlined = normalise.inline_aliases(
